@@ -6,15 +6,15 @@ import sys
 
 ROUND = sys.argv[1] if len(sys.argv) > 1 else "2"
 TAKEN = {
- "C06": ["a per-call cache of parsed tracks keyed by the section body (identical bodies get the first section's labels)", "replacing read().splitlines() by line iteration with rstrip('\\n') (CRLF via untranslated readers)"],
- "C11": ["a fast path in the proximal-event search that runs before the hint is validated", "a single-entry 'last lookup' memo on the tempo map that is not exception-safe"],
- "C13": ["a selection filter that became instruments x difficulties (cross product)", "stripping whitespace before comparing '{' / '}' / '[Header]' in the section partitioner"],
- "C14": ["a process-wide memo from line text to parse result, keyed by the text only", "a 'starts with a digit' fast path that raises IndexError on blank lines"],
- "C15": ["an exact-tick shortcut in timestamp_at_tick that skips the zero-tempo check", "collapsing tempo lines that repeat the current BPM before the ordering check"],
- "C17": ["a mutable default argument dict in Metadata.from_chart_lines shared by all parses", "iterating the section headers through a set (hash-seed dependent order)"],
- "C18": ["a ':05' format spec applied to a tuple-valued sustain in __str__", "bypassing the validating wrapper so that a zero tempo reaches a division"],
- "C19": ["a tick->time memo stored lazily in the Chart instance's __dict__", "an in-place sort of the track's note list inside the rate query"],
- "C20": ["moving a TYPE_CHECKING-only import of a name from chartparse.sync to a runtime import in globalevents", "a module-level try/except ImportError import block in track.py that binds names depending on import order"],
+ "C06": ["a per-call cache of parsed tracks keyed by the section body (identical bodies get the first section's labels)", "replacing read().splitlines() by line iteration with rstrip('\\n') (CRLF via untranslated readers)", "reading the file in fixed 65536-character chunks and gluing lines at chunk boundaries", "an un-anchored header regex so that '<valid header><suffix>' unknown sections are routed"],
+ "C11": ["a fast path in the proximal-event search that runs before the hint is validated", "a single-entry 'last lookup' memo on the tempo map that is not exception-safe", "a galloping (exponential) search that drops the last tempo event for some hint distances", "a lazily built bisect index on the tempo map that is published before it is complete (two threads)"],
+ "C13": ["a selection filter that became instruments x difficulties (cross product)", "stripping whitespace before comparing '{' / '}' / '[Header]' in the section partitioner", "tracks shared (same object / memo) between two sections with identical bodies", "a selection memo kept in class attributes that races between two threads with different selections"],
+ "C14": ["a process-wide memo from line text to parse result, keyed by the text only", "a 'starts with a digit' fast path that raises IndexError on blank lines", "stale regex-match state carried from a parsable line to the following unparsable line after a flattened for/else", "treating whitespace-padded '{' / '}' lines inside a body as structural"],
+ "C15": ["an exact-tick shortcut in timestamp_at_tick that skips the zero-tempo check", "collapsing tempo lines that repeat the current BPM before the ordering check", "a tempo regex that silently drops lines whose value is zero", "an implicit 4/4 time signature supplied when the tick-0 signature is missing"],
+ "C17": ["a mutable default argument dict in Metadata.from_chart_lines shared by all parses", "iterating the section headers through a set (hash-seed dependent order)", "a racy 'last tempo' memo at module level (switch between compare and use)", "a lazily filled section-name table that is left half-filled if the first parse of the process is aborted"],
+ "C18": ["a ':05' format spec applied to a tuple-valued sustain in __str__", "bypassing the validating wrapper so that a zero tempo reaches a division", "str() of a track without notes raising IndexError", "summing lane bits instead of OR-ing them so a duplicated lane line yields an unknown note value (KeyError)"],
+ "C19": ["a tick->time memo stored lazily in the Chart instance's __dict__", "an in-place sort of the track's note list inside the rate query", "a resume hint written in two steps on the shared tempo map (torn between two reader threads)", "track equality implemented through __dict__ so that reading a cached attribute on one twin breaks =="],
+ "C20": ["moving a TYPE_CHECKING-only import of a name from chartparse.sync to a runtime import in globalevents", "a module-level try/except ImportError import block in track.py that binds names depending on import order", "a package-level __getattr__ that raises KeyError depending on what has been imported", "a per-class rank number taken from a global class-creation counter (differs with import order)"],
 }
 FOCUS = {
  "C06": "Prefer changes that only show under particular I/O behaviour or configurations when the file is read *by path* or through unusual-but-legal reader objects: e.g. a read() that returns less than asked, a chunk boundary that falls inside a CRLF pair / inside the BOM / inside a multi-byte UTF-8 character, a file larger than some buffer size, a particular combination of BOM + CRLF + section order, an unknown section at a particular place, or one particular header name out of the 40.",
